@@ -19,11 +19,11 @@ type Conn struct {
 	client *Client
 
 	// client -> server
-	in       []byte
-	inEOF    bool
-	inErr    error
-	readWait chan struct{}
-	lastInAt time.Duration
+	in          []byte
+	inEOF       bool
+	inErr       error
+	readWait    chan struct{}
+	lastInAt    time.Duration
 	lastSendNow time.Duration
 	lastSendLat time.Duration
 
